@@ -70,6 +70,16 @@ What the seeded changes made me strengthen (each was a miss or an "undecided" be
   the `Store` trait from a subscriber callback with every pool worker busy).
 * **C05-3 (close() sends Exit outside the lock)**: the Kani lock group is now also run for C05 (its obligations
   are tagged C05) + witness scenario `closerace`.
+* **C01-4 (write-back with try_lock)**: witness scenario `readerrace` (a reader parked inside `State::clone`, holding
+  the state cell, while the reduced state is written back).
+* **C15-3 (drop only closes while unwinding)**: `std::thread::panicking` got an assumed specification that may answer
+  anything and `close` was added to the callees of `drop`, so Verus decides it (`O-C15-drop-is-stop`).
+* **C19-3 (tasks on a process-wide pool)**: witness scenario `sharedpool` (2048 blocked tasks of one store; a task and
+  a thunk of another store must still run).
+* **C10-5 (join skipped by thread name)**: witness scenario `crossunsub` (unsubscribe of a lagging channeled subscriber
+  from another channeled subscriber's callback).
+* **C04-4, C06-4, C17-4**: caught by what was already there (witness `twostores`, Kani
+  `O-C06-k-ddispatch-err-iff-refused`, witness `builder`).
 * **C18-5 (error_occurred booked when an open store's channel refuses an action)**: the counter part of
   `O-C02-dispatch-open` was not tagged C18: split out as `O-C18-dispatch-open-counts-nothing`; Kani
   `O-C18-k-(d)dispatch-open-no-error`; the lock group is now also run for C18.
